@@ -38,6 +38,19 @@ type ArrComp struct {
 		P *Payload
 	}
 }
+// StrOnly: the only reference is a string (no pointer-typed field at all)
+type StrOnly struct {
+	S string
+	N int64
+}
+
+// BigComp: larger than 256 bytes, with its references in the rear part
+type BigComp struct {
+	Pad  [40]int64
+	P    *Payload
+	Tail [3]int64
+	Q    *Payload
+}
 type Plain struct{ X, Y int64 }
 type Tag struct{}
 type Child struct {
@@ -56,10 +69,12 @@ const (
 	kTag
 	kChild
 	kArr
+	kStrOnly
+	kBig
 	nKinds
 )
 
-var kindNames = [nKinds]string{"PtrComp", "SliceComp", "MapComp", "StrComp", "Mixed", "Plain", "Tag", "Child", "ArrComp"}
+var kindNames = [nKinds]string{"PtrComp", "SliceComp", "MapComp", "StrComp", "Mixed", "Plain", "Tag", "Child", "ArrComp", "StrOnly", "BigComp"}
 
 // objState is the harness-side record of one tracked heap object (a Payload,
 // the backing array of a SliceComp slice, or the bytes of a StrComp string).
@@ -188,6 +203,10 @@ func heapComp(pl *plan) interface{} {
 		return &Child{P: newPayload(pl.pids[0])}
 	case kArr:
 		return mkArr(pl)
+	case kStrOnly:
+		return &StrOnly{S: mkString(pl), N: pl.x}
+	case kBig:
+		return mkBig(pl)
 	}
 	panic("bad kind")
 }
@@ -217,7 +236,22 @@ func writeThrough(ptr unsafe.Pointer, pl *plan) {
 		(*Child)(ptr).P = newPayload(pl.pids[0])
 	case kArr:
 		*(*ArrComp)(ptr) = *mkArr(pl)
+	case kStrOnly:
+		c := (*StrOnly)(ptr)
+		c.S = mkString(pl)
+		c.N = pl.x
+	case kBig:
+		*(*BigComp)(ptr) = *mkBig(pl)
 	}
+}
+
+func mkBig(pl *plan) *BigComp {
+	c := &BigComp{P: newPayload(pl.pids[0]), Q: newPayload(pl.pids[1])}
+	for i := range c.Pad {
+		c.Pad[i] = pl.x + int64(i)
+	}
+	c.Tail = [3]int64{pl.x, ^pl.x, pl.x >> 3}
+	return c
 }
 
 func mkArr(pl *plan) *ArrComp {
